@@ -5,7 +5,7 @@
   Input lines (stdin), see harness/c07.cpp:
     C <obj|cfg> <tag>
     N <id> <h|s> <host|-1>
-    D <id> <child> <parent> <group|-> <filter> <ignoreSoft> <period|-1> <disChecks> <disNotif>
+    D <id> <child> <parent> <group|-> <filter|u> <ignoreSoft|u> <period|-1> <disChecks|u> <disNotif|u>     (u = attribute not set)
     X <depid>
     S <node> <checked> <stateRaw> <stateType>
     T <period> <inside>
@@ -14,6 +14,7 @@
     R <depid> | <ok|other>
     G | <groups of node 0>;<groups of node 1>;…;reg=<k>
     E <reason>          (harness ended the case; accepted only after a refused runtime batch)
+    E evaluation-timeout   (a Q did not come back within the harness's budget: clause evaluation_terminates)
     Q <closedbits|-> | <abc:deps:groups per node> reg=<k>
     V | <parents>/<children>/<reverse dependency ids> per node, ';'-separated
   Output lines:
@@ -41,6 +42,7 @@ structure DSt where
   hrev : List (Nat × (Nat × Dep)) := [] -- the history model's reverse-dependency container
   edgesCmp : Nat := 0
   periodCmp : Nat := 0
+  regQueries : Nat := 0                 -- queries also answered through the registry model's group objects
   caseLoads : Nat := 0                  -- successful L lines in this case
   refusedLater : Bool := false          -- a runtime batch/addition was refused in this case
   skipRest : Bool := false              -- harness ended the case (E line); ignore up to the next C
@@ -133,21 +135,29 @@ def closeCase (d : DSt) : DSt :=
     { d with nontrivial := d.nontrivial + 1, seen := d.seen.insert d.caseHash, caseNontrivial := false }
   else { d with caseNontrivial := false }
 
-def parseDep (ws : List String) (nn : Nat) : Option (Nat × Dep) :=
+/-- attribute token of a D / A line: `u` = not set in the configuration. -/
+def optTok (p : String → Option α) (w : String) : Option (Option α) :=
+  if w == "u" then some none else (p w).map some
+
+def parseDep (ws : List String) (nodes : Array Node) : Option (Nat × Dep) :=
+  let nn := nodes.size
   match ws with
   | [id, c, p, grp, flt, isf, per, dc, dn] => do
     let id ← parseNat? id
     let c ← parseNat? c
     let p ← parseNat? p
-    let flt ← parseNat? flt
-    let isf ← parseBool? isf
+    let flt ← optTok parseNat? flt
+    let isf ← optTok parseBool? isf
     let per ← parseInt? per
-    let dc ← parseBool? dc
-    let dn ← parseBool? dn
+    let dc ← optTok parseBool? dc
+    let dn ← optTok parseBool? dn
     if c ≥ nn || p ≥ nn then none
-    else pure (id, { child := c, parent := p, group := if grp == "-" then none else some grp, stateFilter := flt,
-                     ignoreSoft := isf, periodClosed := false, disableChecks := dc, disableNotifications := dn,
-                     period := if per < 0 then none else some per.toNat })
+    else
+      let decl : DepDecl := { child := c, parent := p, group := if grp == "-" then none else some grp, states := flt,
+                              ignoreSoft := isf, period := if per < 0 then none else some per.toNat,
+                              disableChecks := dc, disableNotifications := dn }
+      -- what the configuration yields: unset attributes resolved as OnConfigLoaded / dependency.ti do
+      pure (id, decl.resolve ((nodes[p]?.map (·.isService)).getD false))
   | _ => none
 
 def ldep (x : Nat × Dep) : LDep := { id := x.1, d := x.2 }
@@ -227,7 +237,7 @@ def handle (d : DSt) (n : Nat) (line : String) : IO DSt := do
       else bad
     | _, _ => bad
   | "D" :: rest =>
-    match parseDep rest d.nodes.size with
+    match parseDep rest d.nodes with
     | some (id, dep) =>
       if (d.live ++ d.pending).any (fun x => x.1 == id) then bad
       else if d.cfgMode then return bump { d with pending := insertSorted (id, dep) d.pending } line
@@ -276,7 +286,9 @@ def handle (d : DSt) (n : Nat) (line : String) : IO DSt := do
       match specLoad nn gAll (io == "ok") with
       | some cl =>
         if !d.caseFailed then IO.println s!"SPECFAIL line={n} case={d.caseNo} clause={cl.name}"
-        d := { d with specfails := d.specfails + 1, caseFailed := true }
+        -- the implementation now holds a cyclic graph: nothing the property says applies to the rest of the case (and
+        -- the model's own recursion would fan out below its 256-level guard exactly like the code's)
+        return markNontrivial { d with specfails := d.specfails + 1, caseFailed := true, skipRest := true, pending := [] }
       | none => pure ()
       if io == "ok" then
         -- first load: pending path (PushDependencyGroupsToRegistry); later batches: runtime AddDependency
@@ -291,10 +303,20 @@ def handle (d : DSt) (n : Nat) (line : String) : IO DSt := do
         return markNontrivial { d with pending := [], loadsCycle := d.loadsCycle + (if io == "cycle" then 1 else 0),
                                        refusedLater := d.caseLoads > 0, skipRest := d.caseLoads == 0 }
     | _ => bad
-  | "E" :: _ => if d.refusedLater then return { d with skipRest := true } else bad
+  | "E" :: rest =>
+    if rest == ["evaluation-timeout"] then
+      -- the harness gave up waiting for IsReachable: "so evaluation always terminates" is violated on this input
+      let mut d := d
+      match specObs d.nodes.size (mkCfg d.nodes d.live d.closed) .hung with
+      | some cl =>
+        if !d.caseFailed then IO.println s!"SPECFAIL line={n} case={d.caseNo} clause={cl.name}"
+        d := { d with specfails := d.specfails + 1, caseFailed := true }
+      | none => pure ()
+      return markNontrivial { d with skipRest := true }
+    else if d.refusedLater then return { d with skipRest := true } else bad
   | "A" :: rest =>
     let (pre, post) := splitBar rest
-    match parseDep pre d.nodes.size, post with
+    match parseDep pre d.nodes, post with
     | some (id, dep), io :: obs =>
       if (d.live ++ d.pending).any (fun x => x.1 == id) || d.caseLoads == 0 || !d.pending.isEmpty then bad else
       let nn := d.nodes.size
@@ -322,6 +344,7 @@ def handle (d : DSt) (n : Nat) (line : String) : IO DSt := do
       | some cl =>
         if !d.caseFailed then IO.println s!"SPECFAIL line={n} case={d.caseNo} clause={cl.name}"
         d := { d with specfails := d.specfails + 1, caseFailed := true }
+        if cl == .cycleRejected then return markNontrivial { d with skipRest := true }
       | none => pure ()
       if io == "ok" then
         -- follow the implementation
@@ -385,6 +408,12 @@ def handle (d : DSt) (n : Nat) (line : String) : IO DSt := do
         IO.println s!"MISMATCH line={n} case={d.caseNo} what=edges impl={io} model={mo}"
         d := { d with mismatches := d.mismatches + 1 }
       let get := fun (v : Nat) => arr[v]?.getD ([], [], [])
+      -- GetParents() the way the code computes it: from the key sets of the registry model's group objects
+      -- (`parents_via_registry` proves this equal to the parents of the live dependencies)
+      let rpar := (List.range nn).map (fun v => sortedSet (parentsR d.rst v))
+      if rpar != (List.range nn).map (fun v => (get v).1) then
+        IO.println s!"MISMATCH line={n} case={d.caseNo} what=parents-registry impl={io} model={";".intercalate (rpar.map showIds)}"
+        d := { d with mismatches := d.mismatches + 1 }
       match specObs nn cfg (.edges (fun v => (get v).1) (fun v => (get v).2.1) (fun v => (get v).2.2)) with
       | some cl =>
         if !d.caseFailed then IO.println s!"SPECFAIL line={n} case={d.caseNo} clause={cl.name}"
@@ -434,6 +463,16 @@ def handle (d : DSt) (n : Nat) (line : String) : IO DSt := do
         if mline != iline then
           IO.println s!"MISMATCH line={n} case={d.caseNo} what=query impl={iline.replace " " ","} model={mline.replace " " ","}"
           d := { d with mismatches := d.mismatches + 1 }
+        -- the same question answered the way the code walks it: over the registry model's group objects (kept in step
+        -- with every D/X/L/A/R line); `reachable_via_registry` proves this equal to the answer on the live set
+        let rbits := fun (v : Nat) =>
+          String.join (Aspect.all.map (fun dt => if isReachableR d.rst cfg.node cfg.eff dt v then "1" else "0"))
+        let rline := " ".intercalate ((List.range nn).map rbits)
+        let ibits := " ".intercalate (nodeToks.map (fun t => (t.splitOn ":").headD ""))
+        d := { d with regQueries := d.regQueries + 1 }
+        if rline != ibits then
+          IO.println s!"MISMATCH line={n} case={d.caseNo} what=query-registry impl={ibits.replace " " ","} model={rline.replace " " ","}"
+          d := { d with mismatches := d.mismatches + 1 }
         -- histogram
         let zeros := obsArr.foldl (fun acc o => acc + (if o.1 then 0 else 1) + (if o.2.1 then 0 else 1) + (if o.2.2.1 then 0 else 1)) 0
         d := { d with bits0 := d.bits0 + zeros, bits1 := d.bits1 + (3 * nn - zeros) }
@@ -463,4 +502,4 @@ def main : IO Unit := do
   let stdin ← IO.getStdin
   let d ← foldLines stdin handle ({} : DSt)
   let d := closeCase d
-  IO.println s!"STATS cases={d.caseNo} queries={d.queries} evaluations={d.evals} unreachable_bits={d.bits0} reachable_bits={d.bits1} spec_queries={d.specQ} spec_skipped={d.specSkipped} loads_ok={d.loadsOk} loads_cycle={d.loadsCycle} adds={d.adds} removes={d.removes} state_sets={d.sets} max_depth={d.maxDepth} groups_compared={d.groupsCmp} edges_compared={d.edgesCmp} period_bits_compared={d.periodCmp} repr_agree={d.reprAgree} repr_differ={d.reprDiffer} runtime_adds={d.rtAdds} runtime_refused={d.rtRefused} runtime_deletes={d.rtDeletes} nontrivial={d.nontrivial} mismatches={d.mismatches} specfails={d.specfails}"
+  IO.println s!"STATS cases={d.caseNo} queries={d.queries} evaluations={d.evals} unreachable_bits={d.bits0} reachable_bits={d.bits1} spec_queries={d.specQ} spec_skipped={d.specSkipped} loads_ok={d.loadsOk} loads_cycle={d.loadsCycle} adds={d.adds} removes={d.removes} state_sets={d.sets} max_depth={d.maxDepth} groups_compared={d.groupsCmp} edges_compared={d.edgesCmp} period_bits_compared={d.periodCmp} registry_queries={d.regQueries} repr_agree={d.reprAgree} repr_differ={d.reprDiffer} runtime_adds={d.rtAdds} runtime_refused={d.rtRefused} runtime_deletes={d.rtDeletes} nontrivial={d.nontrivial} mismatches={d.mismatches} specfails={d.specfails}"
